@@ -119,6 +119,40 @@ def body_factory(tier, seed):
                                   "(handler ran: %r, written: %r)" % (variant, "accepted" if ran else "mishandled", ran, w[:1]),
                                   {"kind": "redecorated", "version": version, "variant": variant, "frame": '[2,"rd","Reset",{"type":"NotAType","extra":1}]',
                                    "handler_ran": ran, "written": w[:1]})
+        # two endpoints of different classes in one process handle CALLs with the SAME unique id at the same time: the one
+        # whose route skips validation is still inside its (slow, asynchronous) handler when the other one, whose route
+        # validates, gets its invalid handler result -- 'every other endpoint in the process keeps full validation'
+        for version in ("1.6", "2.0.1"):
+            for b_action, b_bad in (("Reset", {"status": "NotAStatus"}), ("Heartbeat", {"current_time": 5})):
+                ra = [{"action": "Reset", "skip": True,
+                       "on": {"name": "on_reset", "sig": GD.KW, "async": True, "sleep": 0.05, "out": ("ret", {"status": "NotAStatus"})}}]
+                rb = [{"action": b_action, "skip": False,
+                       "on": {"name": "on_" + b_action.lower(), "sig": GD.KW, "async": False, "out": ("ret", b_bad)}}]
+                ca, cb = D.make_cp_class(version, ra), D.make_cp_class(version, rb)
+                rec_a, rec_b = D.Recorder(), D.Recorder()
+                reset = '{"type":"Hard"}' if version == "1.6" else '{"type":"Immediate"}'
+
+                async def go_two():
+                    import logging
+                    a, b = ca("a", D.Conn(rec_a)), cb("b", D.Conn(rec_b))
+                    a._ov_rec, b._ov_rec = rec_a, rec_b
+                    a.logger = b.logger = logging.getLogger("ov-silent")
+
+                    async def later():
+                        await _asyncio.sleep(0.01)
+                        await b.route_message('[2,"1","%s",%s]' % (b_action, reset if b_action == "Reset" else "{}"))
+                    await _asyncio.gather(a.route_message('[2,"1","Reset",%s]' % reset), later())
+                import asyncio as _asyncio
+                _asyncio.run(go_two())
+                rep.count("same-id-two-endpoints:%s:%s" % (version, b_action))
+                wa, wb = O.sends(rec_a.seq), O.sends(rec_b.seq)
+                if not (len(wb) == 1 and wb[0][0] == 4) or not (len(wa) == 1 and wa[0][0] == 3):
+                    rep.violation("C16:same-id-two-endpoints:%s:%s" % (version, b_action),
+                                  "while a skipping endpoint was handling CALL \"1\", a validating endpoint of another class answered its own "
+                                  "CALL \"1\" (%s, invalid handler result) with %r (expected a CALLERROR); the skipping endpoint wrote %r" % (
+                                      b_action, [x[:3] for x in wb], [x[:3] for x in wa]),
+                                  {"kind": "same-id-two-endpoints", "version": version, "validating_action": b_action,
+                                   "validating_endpoint_wrote": wb, "skipping_endpoint_wrote": wa})
         # a request the endpoint issues ITSELF while it handles the CALL of a route that skips validation (from the
         # coroutine handler, or from the asynchronous after-hook): that request did not ask for skipping and is validated
         for version in ("1.6", "2.0.1"):
